@@ -45,6 +45,9 @@ type run struct {
 	lastRemoved string // remote id of the message most recently removed by a conn event
 	lastRemMbox string
 	broken      string // engine-level problem (reported as engine error, not as violation)
+	// tainted: messages on which some session executed a mutating command of its own while an update about that
+	// very message was still held or queued for that session (the session acted on a stale view of the message).
+	tainted map[string]bool
 }
 
 func init() {
@@ -56,7 +59,7 @@ func New(raw json.RawMessage) (explore.Run, error) {
 	if err := json.Unmarshal(raw, &p); err != nil {
 		return nil, err
 	}
-	r := &run{p: p, orc: map[string]bool{}}
+	r := &run{p: p, orc: map[string]bool{}, tainted: map[string]bool{}}
 	for _, o := range p.Oracles {
 		r.orc[o] = true
 	}
@@ -392,6 +395,7 @@ func (r *run) Step(ev explore.Event) []explore.Violation {
 	switch ev.K {
 	case "cmd":
 		s := r.sess[ev.S]
+		r.noteStaleAction(ev.S, ev.A)
 		res := s.s.C.Cmd(ev.A)
 		out = append(out, r.afterCommand(ev.S, cmdKind(ev.A), res, &ev)...)
 	case "append":
@@ -684,4 +688,118 @@ func (r *run) probe(i int) []explore.Violation {
 		}
 	}
 	return out
+}
+
+// ---------------------------------------------------------------------------------------------------------------
+// Stale-own-action bookkeeping (used to tell the known ordering defect from other convergence failures).
+
+var uuid36 = regexp.MustCompile(`[0-9a-f]{8}-[0-9a-f]{4}-[0-9a-f]{4}-[0-9a-f]{4}-[0-9a-f]{12}`)
+
+func resolveSet(set string, n int, uids []uint32, byUID bool) []int {
+	var out []int
+	num := func(x string) (uint64, bool) {
+		if x == "*" {
+			if byUID {
+				if n == 0 {
+					return 0, false
+				}
+				return uint64(uids[n-1]), true
+			}
+			return uint64(n), true
+		}
+		var v uint64
+		if _, err := fmt.Sscanf(x, "%d", &v); err != nil {
+			return 0, false
+		}
+		return v, true
+	}
+	for _, part := range strings.Split(set, ",") {
+		lohi := strings.SplitN(part, ":", 2)
+		lo, ok := num(lohi[0])
+		if !ok {
+			continue
+		}
+		hi := lo
+		if len(lohi) == 2 {
+			if hi, ok = num(lohi[1]); !ok {
+				continue
+			}
+		}
+		if lo > hi {
+			lo, hi = hi, lo
+		}
+		for i := 0; i < n; i++ {
+			v := uint64(i + 1)
+			if byUID {
+				v = uint64(uids[i])
+			}
+			if v >= lo && v <= hi {
+				out = append(out, i)
+			}
+		}
+	}
+	return out
+}
+
+func (r *run) noteStaleAction(i int, text string) {
+	f := strings.Fields(text)
+	if len(f) == 0 {
+		return
+	}
+	kind := cmdKind(text)
+	byUID := strings.HasPrefix(kind, "UID ")
+	base := strings.TrimPrefix(kind, "UID ")
+	argi := 1
+	if byUID {
+		argi = 2
+	}
+	d, ok := r.w.DumpOf(r.sess[i].s)
+	if !ok || !d.Selected {
+		return
+	}
+	uids := make([]uint32, len(d.Msgs))
+	for k, m := range d.Msgs {
+		uids[k] = m.UID
+	}
+	var idx []int
+	switch base {
+	case "STORE", "COPY", "MOVE":
+		if len(f) > argi {
+			idx = resolveSet(f[argi], len(d.Msgs), uids, byUID)
+		}
+	case "FETCH":
+		up := strings.ToUpper(text)
+		if len(f) > argi && (strings.Contains(up, "BODY[") || strings.Contains(up, "RFC822")) && !strings.Contains(up, "RFC822.SIZE") && !strings.Contains(up, "RFC822.HEADER") {
+			idx = resolveSet(f[argi], len(d.Msgs), uids, byUID)
+		}
+	case "EXPUNGE", "CLOSE":
+		for k := range d.Msgs {
+			idx = append(idx, k)
+		}
+	default:
+		return
+	}
+	if len(idx) == 0 {
+		return
+	}
+	pending := map[string]bool{}
+	for _, x := range append(append([]string{}, d.Held...), d.Responders...) {
+		for _, u := range uuid36.FindAllString(x, -1) {
+			pending[u] = true
+		}
+	}
+	for _, k := range idx {
+		if pending[d.Msgs[k].Internal] {
+			r.tainted[d.Msgs[k].Remote] = true
+		}
+	}
+}
+
+func (r *run) taintCanon() string {
+	var t []string
+	for k := range r.tainted {
+		t = append(t, k)
+	}
+	sort.Strings(t)
+	return strings.Join(t, ",")
 }
